@@ -72,6 +72,9 @@ pub fn guard<T>(f: impl FnOnce() -> T) -> Result<T, String> {
 
 /// Silence the default panic hook (panics are reported as data).
 pub fn quiet_panics() {
+    if std::env::var("HWV_LOUD").is_ok() {
+        return;
+    }
     std::panic::set_hook(Box::new(|_| {}));
 }
 
